@@ -13,9 +13,9 @@ NOT_YET = {}
 HOOK_COMMITS = ["1460123bcc5a44e72392e65465c5bd0c424ce6e9"]  # PrefixFileSet::verif_snapshot behind --cfg servlin_verif (src/log/prefix_file_set.rs, Cargo.toml check-cfg)
 
 PROPS["C12"] = dict(
-    suites=["c12t", "c12", "c12e"],
+    suites=["c12t", "c12", "c12e", "c12i"],
     random_suites=["c12"],
-    shards={"c12t": 8, "c12": 4, "c12e": 1},
+    shards={"c12t": 8, "c12": 4, "c12e": 1, "c12i": 1},
     lean_modules=["ServlinVerif.Props.C12"],
     audit="Audit/C12.lean",
     rule="c12t: the real TokenSet driven exhaustively: every valid sequence up to depth 6 (thorough: 8) over {wait_token (only where a unit is free: it "
@@ -30,8 +30,8 @@ PROPS["C12"] = dict(
          "that the client's socket takes the last descriptor and accept() fails with EMFILE 1..3 times (the client is starved for 250 ms, the "
          "'too many open files' event is captured), then the descriptors are released: the client must be served and max_conns fresh gated clients "
          "must all be inside simultaneously. Non-trivial = at least one take that had to fail / at least one connection ended abnormally / accept failed.",
-    nontrivial=lambda tag, args, obs: ("O" in obs.split(" ")[0]) if tag == "c12t" else (True if tag == "c12e" else bool(re.search(r"[epdmauvwxEPDM]", args[1]))),
-    klass=lambda tag, args, obs: ("c12t:size=%s:len=%d" % (args[0], len(args[1]))) if tag == "c12t" else ("c12e:max_conns=%s" % args[0] if tag == "c12e" else "c12:max_conns=%s:clients=%d" % (args[0], len(args[1]))),
+    nontrivial=lambda tag, args, obs: ("O" in obs.split(" ")[0]) if tag == "c12t" else (True if tag in ("c12e", "c12i") else bool(re.search(r"[epdmauvwxEPDM]", args[1]))),
+    klass=lambda tag, args, obs: ("c12t:size=%s:len=%d" % (args[0], len(args[1]))) if tag == "c12t" else ("c12e:max_conns=%s" % args[0] if tag == "c12e" else "c12i:idle-clients=" + args[0] if tag == "c12i" else "c12:max_conns=%s:clients=%d" % (args[0], len(args[1]))),
     explanation="Model/Server.lean: TokenSet as (size, units in the channel, live tokens); the accept loop as a four-state machine, connection tasks as "
                 "a count, every way a connection can end as one event (its token is dropped). Theorems over all event sequences / API sequences: "
                 "C12_tokens (units + live = size, live <= size), C12_drop_returns (try_send never finds the channel full), C12_take_iff, "
@@ -46,9 +46,9 @@ PROPS["C12"] = dict(
 )
 
 PROPS["C13"] = dict(
-    suites=["c13", "c13e", "c13p"],
+    suites=["c13", "c13e", "c13p", "c13b"],
     random_suites=["c13"],
-    shards={"c13": 4, "c13e": 1, "c13p": 1},
+    shards={"c13": 4, "c13e": 1, "c13p": 1, "c13b": 1},
     lean_modules=["ServlinVerif.Props.C13"],
     audit="Audit/C13.lean",
     rule="whole servers on loopback with their own permit: revocation injected with 0..45 ms random delay at each phase of a connection's life {no "
@@ -59,8 +59,8 @@ PROPS["C13"] = dict(
          "served (closed) — also when the further requests arrive pipelined in one write (phases I, H). c13e: 2 (5) servers whose "
          "accept() keeps failing with EMFILE (descriptor table filled, a client waiting in the backlog; needs prlimit(1)), revoked 150..750 ms into "
          "that state: the stopped signal must still arrive (within 2.5 s: one 500 ms error sleep) and the port must then refuse connections. Non-trivial = at least one open connection at revocation.",
-    nontrivial=lambda tag, args, obs: args[1] != "-",
-    klass=lambda tag, args, obs: "c13e:accept-failing" if tag == "c13e" else "c13p:revoked-at=" + args[1] if tag == "c13p" else "c13:conns=%d:allslots=%s" % (len(args[1].replace("-", "")), "yes" if len(args[1].replace("-", "")) == int(args[0]) else "no"),
+    nontrivial=lambda tag, args, obs: tag == "c13b" or args[1] != "-",
+    klass=lambda tag, args, obs: "c13e:accept-failing" if tag == "c13e" else "c13p:revoked-at=" + args[1] if tag == "c13p" else "c13b:pool=" + args[0] if tag == "c13b" else "c13:conns=%d:allslots=%s" % (len(args[1].replace("-", "")), "yes" if len(args[1].replace("-", "")) == int(args[0]) else "no"),
     explanation="Model/Server.lean. C13_rank_decreases/C13_bounded: after revocation the accept loop takes at most 3 more steps of its own in every "
                 "schedule; C13_progress: in the repaired loop such a step is always enabled without anything from outside (no free slot, client or "
                 "connection ending needed); C13_never_early (stopped only after revocation; at most one straggler accept), C13_stopped_final; "
